@@ -44,14 +44,45 @@ def memo_idiom(eng: Engine, fn: FuncInfo):
     return None
 
 
-def run(chk: Check, eng: Engine) -> None:
-    chk.rule("R11-a", "memo keys are computed from every parameter the miss path reads; get_hash covers root, tree, scope and local variables", floor=10)
-    chk.rule("R11-b", "the memo key is computed before scope/local_variables are written and the store uses that definition", floor=8)
-    chk.rule("R11-c", "memo hits return copies; foreign fitness objects are mutated only after copy(); fitness lists are never mutated in place", floor=10)
-    chk.not_decided += ["'no hash coincidence can change a verdict' cannot hold by construction: memo keys are 64-bit hashes and tree equality is hash equality",
-                        "soft constraints (scores depend on history by design)"]
+def binding_key_quality(eng: Engine, gh: FuncInfo, hcall: ast.Call, param: str, depth: int = 0) -> tuple[str, str]:
+    """('exact' | 'lossy' | 'missing', detail): how the dictionary `param` enters the hash call."""
+    def uses_param(e: ast.AST) -> bool:
+        return any(isinstance(x, ast.Name) and x.id == param for x in ast.walk(e))
 
-    base = eng.cls(f"{CONS}.constraint", "Constraint")
+    elems = hcall.args[0].elts if hcall.args and isinstance(hcall.args[0], ast.Tuple) else list(hcall.args)
+    for el in elems:
+        if not uses_param(el):
+            continue
+        src = norm(el)
+        if ".items()" in src and isinstance(el, ast.Call) and call_name(el) in ("tuple", "frozenset", "sorted"):
+            return "exact", short(el, 60)
+        if ".keys()" in src or (isinstance(el, ast.Call) and call_name(el) == "len"):
+            return "lossy", f"`{short(el, 60)}` ignores the bound values"
+        if isinstance(el, ast.Call) and depth < 2:
+            # helper: look into its body
+            mod = eng.ix.modules[gh.module]
+            target = None
+            if isinstance(el.func, ast.Attribute) and gh.cls is not None:
+                target = gh.cls.lookup(el.func.attr)
+            elif isinstance(el.func, ast.Name):
+                r = eng.ix.resolve_name(mod, el.func.id)
+                target = r if isinstance(r, FuncInfo) else None
+            if target is not None:
+                body = norm(target.node)
+                folds = [x for x in ast.walk(target.node) if isinstance(x, (ast.AugAssign, ast.BinOp)) and isinstance(x.op, (ast.BitXor, ast.Add, ast.BitOr, ast.BitAnd, ast.Mult))
+                         and "hash(" in norm(x)]
+                rets = [r_ for r_ in ast.walk(target.node) if isinstance(r_, ast.Return) and r_.value is not None]
+                if folds:
+                    return "lossy", f"{target.qualname} combines per-entry hashes with `{type(folds[0].op).__name__}` ({short(folds[0], 50)}), which forgets which value belongs to which name"
+                if rets and all(".items()" in norm(r_.value) and isinstance(r_.value, ast.Call) and call_name(r_.value) in ("tuple", "frozenset", "sorted", "hash") for r_ in rets):
+                    return "exact", f"via {target.qualname}: {short(rets[0].value, 50)}"
+            return "missing", f"`{short(el, 60)}` (helper not understood)"
+        return "missing", short(el, 60)
+    return "missing", "not part of the hashed tuple"
+
+
+def gethash_rule(chk: Check, eng: Engine, rule: str) -> None:
+    """GeneticBase.get_hash must distinguish evaluations that differ in root, tree, scope or local variables."""
     gb = eng.cls(f"{CONS}.base", "GeneticBase")
     gh = eng.method(gb, "get_hash", inherited=False)
     # get_hash covers all its parameters
@@ -62,20 +93,35 @@ def run(chk: Check, eng: Engine) -> None:
     hsrc = norm(hcall[0])
     for p in gparams:
         if p in names_in(hcall[0]):
-            chk.ok("R11-a", gh.fq, gh.line, f"get_hash hashes `{p}`")
+            chk.ok(rule, gh.fq, gh.line, f"get_hash hashes `{p}`")
         else:
-            chk.bad("R11-a", eng.relfile(gh), gh.line, gh.fq, f"get_hash ignores its parameter `{p}`",
+            chk.bad(rule, eng.relfile(gh), gh.line, gh.fq, f"get_hash ignores its parameter `{p}`",
                     "two evaluations that differ only in that input share a memo entry: a quantifier binding or a local variable is ignored", keyparts=f"gethash-ignores|{p}")
     if "get_root()" in hsrc:
-        chk.ok("R11-a", gh.fq, gh.line, "get_hash includes the tree's root (the same subtree in another tree is another key)")
+        chk.ok(rule, gh.fq, gh.line, "get_hash includes the tree's root (the same subtree in another tree is another key)")
     else:
-        chk.bad("R11-a", eng.relfile(gh), gh.line, gh.fq, "get_hash does not include the tree's root", "verdicts for a subtree are reused across different enclosing trees", keyparts="gethash-root")
+        chk.bad(rule, eng.relfile(gh), gh.line, gh.fq, "get_hash does not include the tree's root", "verdicts for a subtree are reused across different enclosing trees", keyparts="gethash-root")
     for d, what in (("scope", "scope"), ("local_variables", "local variables")):
-        if f"({d} or {{}}).items()" in hsrc or f"{d}.items()" in hsrc:
-            chk.ok("R11-a", gh.fq, gh.line, f"get_hash includes the items (keys and values) of {what}")
+        q, detail = binding_key_quality(eng, gh, hcall[0], d)
+        if q == "exact":
+            chk.ok(rule, gh.fq, gh.line, f"get_hash includes the items (names paired with values) of {what}: {detail}")
+        elif q == "lossy":
+            chk.bad(rule, eng.relfile(gh), gh.line, gh.fq, f"get_hash folds the {what} lossily: {detail}",
+                    "different bindings collide (e.g. {x: a, y: b} and {x: b, y: a}, or every {x: t, y: t}): the body of a nested quantifier is answered "
+                    "with the cached verdict of another binding", keyparts=f"gethash-lossy|{d}")
         else:
-            chk.bad("R11-a", eng.relfile(gh), gh.line, gh.fq, f"get_hash does not hash the items of {what}", "bindings with the same names but other values collide", keyparts=f"gethash-items|{d}")
+            chk.bad(rule, eng.relfile(gh), gh.line, gh.fq, f"get_hash does not hash the items of {what}", "bindings with the same names but other values collide", keyparts=f"gethash-items|{d}")
 
+
+def run(chk: Check, eng: Engine) -> None:
+    chk.rule("R11-a", "memo keys are computed from every parameter the miss path reads; get_hash covers root, tree, scope and local variables", floor=10)
+    chk.rule("R11-b", "the memo key is computed before scope/local_variables are written and the store uses that definition", floor=8)
+    chk.rule("R11-c", "memo hits return copies; foreign fitness objects are mutated only after copy(); fitness lists are never mutated in place", floor=10)
+    chk.not_decided += ["'no hash coincidence can change a verdict' cannot hold by construction: memo keys are 64-bit hashes and tree equality is hash equality",
+                        "soft constraints (scores depend on history by design)"]
+
+    base = eng.cls(f"{CONS}.constraint", "Constraint")
+    gethash_rule(chk, eng, "R11-a")
     n_memo = 0
     for c in sorted(base.all_subclasses(), key=lambda c: c.fq):
         fn = c.methods.get("fitness")
